@@ -2,8 +2,10 @@ package chainsim
 
 import (
 	"math/big"
+	"strings"
 
 	"github.com/elastos/Elastos.ELA/common/config"
+	"github.com/elastos/Elastos.ELA/core/contract"
 )
 
 // label is the ledger model's verdict for one transaction at one height:
@@ -18,6 +20,33 @@ func (s *sim) label(v *view, info *txInfo, height uint32) (string, *big.Int) {
 			if o, ok := v.utxo[in]; ok && o.owner >= 0 && s.actors[o.owner].weird != "" {
 				lbl = "unsigned-spend-from-script-address/" + s.actors[o.owner].weird
 				break
+			}
+		}
+	}
+	// C31: in the freeze window nothing spends a cross-chain output; from the
+	// restriction height on only side-chain withdrawals / legacy deposit
+	// returns may (this engine builds transfers only, so: nothing it builds).
+	if s.ccFreeze > 0 || s.ccRestrict > 0 {
+		spendsCross := false
+		for _, in := range info.facts.ins {
+			if o, ok := v.utxo[in]; ok && contract.GetPrefixType(o.ph) == contract.PrefixCrossChain {
+				spendsCross = true
+			}
+		}
+		if spendsCross {
+			band := "before-freeze"
+			if height >= s.ccFreeze && height < s.ccRestrict {
+				band = "freeze-window"
+			} else if height >= s.ccFreeze {
+				band = "restricted"
+			}
+			s.c.Probe("cross-chain-spend-judged:" + band)
+			policyFirst := lbl == "" || lbl == "missing-signature-of-owner" || lbl == "signature-over-other-content" || strings.HasPrefix(lbl, "unsigned-spend-from-script-address")
+			if policyFirst && band == "freeze-window" {
+				return "crosschain-utxo-frozen", fee
+			}
+			if policyFirst && band == "restricted" {
+				return "crosschain-utxo-restricted", fee
 			}
 		}
 	}
@@ -55,6 +84,16 @@ func (s *sim) label(v *view, info *txInfo, height uint32) (string, *big.Int) {
 // under simulation from the plan.
 func (s *sim) applyPolicyKnobs(cfg *config.Configuration) {
 	p := s.c.Plan
+	// cross-chain UTXO emergency policy: disabled unless the plan sets it
+	cfg.CrossChainUTXOFreezeHeight = config.DisabledCrossChainUTXORestrictionHeight
+	cfg.CrossChainUTXORestrictionHeight = config.DisabledCrossChainUTXORestrictionHeight
+	s.ccFreeze, s.ccRestrict = 0, 0
+	if f := p.Knob("ccfreeze", 0); f > 0 {
+		s.ccFreeze = uint32(f)
+		s.ccRestrict = uint32(f + p.Knob("ccwindow", 0))
+		cfg.CrossChainUTXOFreezeHeight = s.ccFreeze
+		cfg.CrossChainUTXORestrictionHeight = s.ccRestrict
+	}
 	s.frozen = int(p.Knob("frozen", -1))
 	s.frozenHeight = uint32(p.Knob("frozenh", 0))
 	if s.frozen >= 0 {
